@@ -552,6 +552,28 @@ def rule_inverse_tables(rep, F):
                 rep.violation("RW-inverse", "%s|%d..%d" % (n1, lo, hi), "%s maps %d..%d to %d..%d but %s does not map that range back (its table: %s): such constructor data does not survive a round trip" % (n1, lo, hi, ilo, ihi, n2, [(l2, h2 if h2 < (1 << 63) else "max", r2) for l2, h2, r2 in t2]), {})
 
 
+def rule_int_gate(rep, F):
+    from ruleutil import gate_limit
+    rep.rule("INT-gate", "Int::from_str builds an Int only on the edge where the magnitude is at most 2^64 - 1 (what the writer's `as u64` / nint argument can express): the premise of the audited casts in the Int writer")
+    ids = F.by_key("Int::from_str")
+    if len(ids) != 1:
+        rep.lost("Int::from_str not found")
+        return
+    fn = F.fns[ids[0]]
+    n = 0
+    for bi, bb in enumerate(fn["bbs"]):
+        for st in bb["st"]:
+            if st[1] == "=" and st[3][0] == "agg" and st[3][2].endswith("numeric::int::Int"):
+                n += 1
+                rep.inst("INT-gate")
+                lim, why, q = gate_limit(F, ids[0], bi)
+                if lim is None:
+                    rep.violation("INT-gate", "Int::from_str|ungated", "Int::from_str builds an Int that is not bounded by a comparison with a constant (%s): a parsed value beyond +-(2^64 - 1) is encoded as a different number" % why, {})
+                elif lim > (1 << 64) - 1:
+                    rep.violation("INT-gate", "Int::from_str|%d" % lim, "Int::from_str admits magnitudes up to %d; the writer can express at most 2^64 - 1 (a larger value is written truncated: Int(2^64) encodes as 0)" % lim, {})
+    rep.floor("Int constructions in Int::from_str", 1, n)
+
+
 def check(rep, F, tier, replay=None):
     aud = common.load_table("e2_audited.json")
     inv = Inventory(F, thorough=(tier == "thorough"))
@@ -565,5 +587,6 @@ def check(rep, F, tier, replay=None):
     rule_inverse_tables(rep, F)
     rule_pair(rep, F, inv, aud)
     rule_negint(rep, F)
+    rule_int_gate(rep, F)
     rule_cast(rep, F, aud)
     return rep.finish(EXPLANATION, ASSUMPTIONS, trusted_base=["csl-facts driver (HIR dump of the type-checked crate)", "cbor_event Serializer semantics (one call = one item)", "tables/e2_audited.json"])
